@@ -528,9 +528,9 @@ func c19(p *Prog, r *Report) {
 	for _, d := range dec {
 		classes[d.cls] = true
 	}
-	if !(classes[0] && classes[1] && classes[2] && classes[3]) && len(encBytes) == 4 {
-		var eb [4][]bits
-		okEnc := true
+	var eb [4][]bits
+	okEnc := len(encBytes) == 4
+	if len(encBytes) == 4 {
 		for i := 0; i < 4; i++ {
 			width := 8*sizes[i] - 2
 			ee := &bitEval{env: map[ssa.Value]bits{app.Params[1]: bitsInput(width)}, memo: map[ssa.Value]bits{}}
@@ -552,11 +552,15 @@ func c19(p *Prog, r *Report) {
 				okEnc = false
 			}
 		}
-		if okEnc {
-			r.Note("ConsumeVarint is not a per-class switch: decided by abstract interpretation partitioned on the class b[0]>>6 and the available length")
-			c19Partitioned(p, r, R2, R3, con, eb)
-			goto afterDecoder
-		}
+	}
+	if okEnc {
+		// every route the input length can select (fast paths for long inputs)
+		c19ExactLengthSweep(p, r, R2, con, eb)
+	}
+	if !(classes[0] && classes[1] && classes[2] && classes[3]) && okEnc {
+		r.Note("ConsumeVarint is not a per-class switch: decided by abstract interpretation partitioned on the class b[0]>>6 and the available length")
+		c19Partitioned(p, r, R2, R3, con, eb)
+		goto afterDecoder
 	}
 	// ---- R2: identity per class
 	for i := 0; i < 4; i++ {
